@@ -694,7 +694,7 @@ func (b *c08Builder) add(target int, fi [5]uint16, data []byte, origin, base str
 		}
 		b.nLarge++
 	}
-	if sc.S > 1<<16 && sc.S <= c09SMax && origin != "boundary" && origin != "corpus" && origin != "rle-frameinfo-large" && origin != "j2k-mct-stages" {
+	if sc.S > 1<<16 && sc.S <= c09SMax && origin != "boundary" && origin != "corpus" && origin != "rle-frameinfo-large" && origin != "j2k-mct-stages" && origin != "header-counts" && origin != "j2k-degenerate-geometry" {
 		// decodes of large declared frames are slow (page faults of the frame buffers): thin them out
 		keep := 8
 		if b.c.Thorough() {
@@ -1576,6 +1576,9 @@ func c08BuildJobs(c *hx.Ctx) []c08Job {
 	b.j2kPart2(seeds)
 	b.j2kMctStages()
 	b.j2kPacketHeaders()
+	b.headerCounts(seeds)
+	b.secondFrameHeaders(seeds)
+	b.j2kDegenerateGeometry()
 	b.jlsScans(seeds)
 	if only := os.Getenv("C08_ONLY"); only != "" { // analysis aid: restrict to some entry points
 		var js []c08Job
@@ -1813,7 +1816,7 @@ func c08Main(c *hx.Ctx) {
 			}
 		}
 		c.Eval(fmt.Sprintf("%d|%v|%x", j.Target, j.FI, j.Data), j.Origin != "corpus" && len(j.Data) >= 4)
-		if r.Outcome == "timeout" || r.Outcome == "slow>2.5s" || strings.HasPrefix(r.Outcome, "crash") {
+		if r.Outcome == "timeout" || r.Outcome == "hang" || r.Outcome == "slow>4s" || strings.HasPrefix(r.Outcome, "crash") {
 			if j.S > c09SMax {
 				c.Count("inconclusive:declared-S>2^22:" + r.Outcome)
 			} else {
